@@ -7,7 +7,7 @@ CLAIM = dict(
     text='Bounded symbolic checking: for every start/stop/step (None or -7..7, steps 1..7 and -6..-1) and every length n <= 6 the Slice wrappers '
          'first/count/gen_indices/indices agree with each other and with the language-reference selection; for every sample size <= 8 (12 thorough) '
          'and n <= 12 (16) the Sample indices are min(N,n), start at 0, strictly increase, stay below n and have gaps differing by at most 1; the '
-         'command-line parser is executed on every string of <= 4 characters over the alphabet "0123456789,- Ne".',
+         'one selector object serves overlapping walks and describing calls without changing; the command-line parser is executed on every string of <= 4 characters over the alphabet "0123456789,- Ne".',
     note='Trusted: CrossHair/z3; PySlice stand-in for the C builtin slice (validated exhaustively against the builtin for n <= 7 on every run). '
          'Outside: lengths beyond the bound; option strings longer than 4 characters or with other characters.',
 )
@@ -48,7 +48,9 @@ def ob_sample_smt(nmax):
         ctx = P.Ctx(width=16, unwind=nmax + 1)
         I = P.Interp(ctx)
         size, n = z3.BitVec('size', 16), z3.BitVec('n', 16)
-        o = ctx.new_obj(S.Sample, {'_sample_size': P.SInt(size)})
+        # the object is made by the real constructor (whatever state it sets up is part of the encoding)
+        o = ctx.new_obj(S.Sample, {})
+        init = I.call(S.Sample.__init__, [o, P.SInt(size)])
         out = I.call(S.Sample.gen_indices, [o, P.SInt(n)])
         cnt = I.call(S.Sample.count, [o, P.SInt(n)])
         if isinstance(out.value, list):
@@ -73,8 +75,8 @@ def ob_sample_smt(nmax):
         g1, g2 = z3.BitVec('g1', 16), z3.BitVec('g2', 16)
         isgap = lambda g: z3.Or(*[z3.And(cs[k], cs[k - 1], g == vs[k] - vs[k - 1]) for k in range(1, K)]) if K > 1 else z3.BoolVal(False)
         uneven = z3.And(isgap(g1), isgap(g2), g1 - g2 >= 2)
-        goal = [out.ok(), contiguous, stops, total == want, ctx.lift_int(cnt.value) == want, in_range, starts0, incr, z3.Not(uneven)]
-        r = P.decide([size >= 1, n >= 0, n <= nmax, size <= nmax + 4], goal, side=out.side + cnt.side, names=['size', 'n'], timeout_s=600)
+        goal = [init.ok(), out.ok(), contiguous, stops, total == want, ctx.lift_int(cnt.value) == want, in_range, starts0, incr, z3.Not(uneven)]
+        r = P.decide([size >= 1, n >= 0, n <= nmax, size <= nmax + 4], goal, side=init.side + out.side + cnt.side, names=['size', 'n'], timeout_s=600)
         r['functions'] = sorted(ctx.encoded)
         return r
 
@@ -89,7 +91,7 @@ def ob_sample_smt(nmax):
             and (not gaps or max(gaps) - min(gaps) <= 1)
         return not ok, 'Sample(%d).indices(%d) = %r count %r' % (size, n, got, s.count(n))
     return Ob('sample_spread_smt_n%d' % nmax, 'smt', 'every sample size 1..%d and every length 0..%d (loop unwound %d times, unwinding assertion checked)' % (nmax + 4, nmax, nmax + 1),
-              ['common.Slice.Sample.gen_indices', 'Sample.count'], fn=fn, replay=replay, timeout=600,
+              ['common.Slice.Sample.__init__', 'Sample.gen_indices', 'Sample.count'], fn=fn, replay=replay, timeout=600,
               tiers=('quick', 'thorough') if nmax <= 16 else ('thorough',))
 
 
@@ -191,6 +193,9 @@ def obligations(tier):
            ['common.Slice.Slice.first/count/gen_indices/indices'], harness='C15_slice', func='slice_reuse', timeout=170 if q else 1200, stubs=['PySlice for builtin slice'], parts=6),
         Ob('sample_reuse_across_lengths', 'ch', 'one Sample object (1..5) applied to n1 then to n2 != n1, both 0..8',
            ['common.Slice.Sample.first/count/gen_indices/indices'], harness='C15_slice', func='sample_reuse', timeout=170 if q else 1200),
+        Ob('sample_overlapping_walks', 'ch', 'one Sample object (1..7) walked by two generators at once: 0..4 indices taken over n1, then the whole list / count over n2, then the first walk finished; '
+           'and two generators in lock step, after the selector has been described (long_str / str / first / last / step) for n2; n1, n2 0..12: each walk equals that of a fresh selector, the selector stays equal to a fresh one',
+           ['common.Slice.Sample.gen_indices/indices/count/long_str/first/last/step/__eq__/__str__'], harness='C15_slice', func='sample_interleaved', timeout=170 if q else 600, parts=7),
         Ob('sample_spread_wide', 'ch', 'every sample size 1..48 on every n 0..64 (real Sample object, run natively per case)', ['common.Slice.Sample.first/count/gen_indices/indices'],
            harness='C15_slice', func='sample_sel_wide', timeout=170 if q else 600, parts=8),
         Ob('sample_spread_small', 'ch', 'sample size 1..4, n 0..6 (real Sample object incl. first())', ['common.Slice.Sample.first/count/gen_indices/indices'],
